@@ -2,5 +2,6 @@
 # pre-screen a seeded change in its scratch worktree (does not touch /repo or /verif/evidence):
 #   tools/try_seed.sh <worktree> <check id> [--only GLOB]
 WT="$1"; shift; ID="$1"; shift
+mkdir -p /tmp/mut
 export PYTHONPATH="$WT" VF_REPO="$WT" VF_EVIDENCE_DIR="/tmp/mut/evidence_$ID" VF_REPLAY_DIR="/tmp/mut/replays_$ID"
 cd "$(dirname "$0")/.." && ./vf check "$ID" "$@"
